@@ -833,7 +833,9 @@ func (r *runner) doGet(op *Op, tx *txCtx) {
 		r.viol(oracle, oracle+":mismatch", "Get: "+msg)
 	}
 	if op.Scrib && found {
-		scribble(val) // the returned value is the caller's to modify
+		// the returned value is the caller's to modify, and to grow in place:
+		// the spare capacity behind it belongs to the caller as well
+		scribble(val[:cap(val)])
 		r.probe("scribble-get")
 	}
 	if found && len(val) > 0 {
